@@ -31,6 +31,14 @@ def rules(chk, db):
     chk.rule('SS', 'stream status mapping', minimum=2)
     rwrules.check_stream_class(chk, db, 'nop::StreamReader', 'reader', 'ST', 'SS')
     rwrules.check_stream_class(chk, db, 'nop::StreamWriter', 'writer', 'ST', 'SS')
+    # ... or read back from memory: every entry ends with a zero-or-more byte Skip and tables often end the buffer, so the buffer
+    # readers' Ensure must succeed exactly when the request fits (Ensure(0) / Skip(0) at the very end included)
+    chk.rule('T', 'Ensure(n) of the buffer readers succeeds exactly when n <= limit - pos, overflow-safe', minimum=2)
+    for rec in ('nop::BufferReader', 'nop::PedanticBufferReader'):
+        rwrules.check_buffer_class(chk, db, rec, {'T': 'T', 'G': None, 'E': None, 'C': None}, guard_required=False)
+    chk.rule('G', 'the checked buffer reader refuses a transfer / skip that exceeds what remains', minimum=2)
+    chk.rule('E', 'refusal returns ReadLimitReached and has no effect', minimum=2)
+    rwrules.check_buffer_class(chk, db, 'nop::PedanticBufferReader', {'T': None, 'G': 'G', 'E': 'E', 'C': None})
 
 
 def run(chk, db):
